@@ -13,10 +13,15 @@ import (
 // function by source name (their value at the call), old(...), and arg0, arg1, ... (the
 // call's arguments, receiver first).
 func (c *FnVC) atAsserts(x *ssa.Call, name, tag string, args []string, atys []types.Type) {
+	c.atAssertsIn(x.Block(), name, tag, args, atys)
+}
+
+// atAssertsIn: the same for any event located in block b (calls, channel sends: `at call
+// send assert E` with arg0 the channel and arg1 the value sent).
+func (c *FnVC) atAssertsIn(b *ssa.BasicBlock, name, tag string, args []string, atys []types.Type) {
 	if c.ct == nil {
 		return
 	}
-	b := x.Block()
 	for _, at := range c.ct.At {
 		if !strings.Contains(name, at.Callee) {
 			continue
